@@ -522,7 +522,8 @@ MANIFEST = {
                   'higher than OUTLINE_DEPTH_LIMIT+1 = 257 levels are a proved-and-replayed known finding (C17-deep-outline: '
                   'get_toc answers Err). adjust_zero_pages is proved to turn a table holding a forest into one holding the specified '
                   'fixed-up forest (first child with a page, recursively), the denoted forest has distinct ids and height <= number '
-                  'of calls, and the whole pipeline calls -> adjust_zero_pages -> build_outline -> attach -> get_toc is composed. '
+                  'of calls, and the whole pipeline calls -> adjust_zero_pages -> build_outline -> attach -> get_toc is composed; for '
+                  'page trees meeting the hypotheses of C12 the page list is unchanged by the build, so the numbers are the original ones. '
                   'Tied to the implementation by differential runs through the public API incl. save_to + load_mem on every case.',
     'level_note': 'Trusted: Coq kernel; translator (DEREF_LIMIT, PAGE_TREE_DEPTH_LIMIT, OUTLINE_DEPTH_LIMIT and the budget/depth '
                   'shape anchors of get_outlines); hand-written models tied by correspondence (observable: bookmark table, all '
